@@ -16,6 +16,7 @@ package c09
 import (
 	"encoding/xml"
 	"fmt"
+	"go/token"
 	"os"
 	"strings"
 
@@ -166,6 +167,59 @@ func (c *ctx) primitives() {
 		r.Line(fmt.Sprintf("exec %s %d 9", sk.Encode(), want), obs)
 		r.Case(fmt.Sprintf("current %d", i), true, "primitive")
 	}
+	// length classes: every comparison len(x) op c the translator interprets, and every
+	// constant index / low slice bound, against real Go on slices of length 0..9
+	for length := 0; length <= 9; length++ {
+		sl := make([]int, length)
+		class := length
+		if class > 7 {
+			class = 7
+		}
+		for c := int64(0); c <= 8; c++ {
+			for _, op := range []token.Token{token.EQL, token.NEQ, token.LSS, token.LEQ, token.GTR, token.GEQ} {
+				mask, ok := LenGuardMask(op, c)
+				if !ok {
+					continue
+				}
+				var holds bool
+				switch op {
+				case token.EQL:
+					holds = len(sl) == int(c)
+				case token.NEQ:
+					holds = len(sl) != int(c)
+				case token.LSS:
+					holds = len(sl) < int(c)
+				case token.LEQ:
+					holds = len(sl) <= int(c)
+				case token.GTR:
+					holds = len(sl) > int(c)
+				case token.GEQ:
+					holds = len(sl) >= int(c)
+				}
+				obs := "brk"
+				if holds {
+					obs = "ret"
+				}
+				r.Line(fmt.Sprintf("exec %s %d 9", seq(havoc(0, 0xFF), ifKind(0, mask, ret(), brk())).Encode(), class), obs)
+			}
+			if c <= 6 {
+				obs := "norm"
+				if guard(func() { _ = sl[c] }).panicMsg != "" {
+					obs = "panic:4"
+				}
+				r.Line(fmt.Sprintf("exec %s %d 9", seq(havoc(0, 0xFF), require(0, maskGE(c+1), 4)).Encode(), class), obs)
+			}
+			if c <= 7 {
+				obs := "norm"
+				if guard(func() { _ = sl[c:] }).panicMsg != "" {
+					obs = "panic:5"
+				}
+				r.Line(fmt.Sprintf("exec %s %d 9", seq(havoc(0, 0xFF), require(0, maskGE(c), 5)).Encode(), class), obs)
+			}
+		}
+		r.Case(fmt.Sprintf("lenclass %d", length), true, "primitive")
+	}
+	r.Exhaustive = append(r.Exhaustive, "length classes: len(x) op c for op in ==,!=,<,<=,>,>= and c in 0..8 (where interpreted), x[c], x[c:] on slices of length 0..9")
 	r.Exhaustive = append(r.Exhaustive, "7 dynamic token kinds x 6 assertion targets (unchecked, comma-ok) + nil test; Iter.Current() nil-ness for a child of each of the 5 token classes")
 }
 
